@@ -44,7 +44,7 @@ def postRecvPlain (s : RxState) (c : Nat) (enc : Bool) : RxState × Bool :=
   else if c = s.max then (s, false)
   else if c > s.max then (forward s c (c - s.max), true)
   else if s.max - c ≤ L then inWindow s (s.max - c)
-  else if enc = false then ({ s with max := c, bitmap := 0xffff }, true)
+  else if enc = false then ({ s with max := c, bitmap := 0 }, true)
   else (s, false)
 
 /-- `post_recv(msg_ctr, true, with_rollover = true)` (group senders; always encrypted) -/
@@ -120,42 +120,32 @@ def specAccept (acc : List Nat) (c : Nat) : Bool :=
 /-! ### Unsecured sessions: the same, plus the restart rule
 
 Written from the property text: between two restarts of the peer's counter a value is accepted at
-most once, a newer value and an in-window first-timer are accepted; a value that lies more than
-the window below a value accepted since the last restart IS a restart: it is accepted and starts a
-new epoch. `floor` is the value the current epoch started with after a restart (0 in the first
-epoch): what the peer sent *below* it before the receiver noticed the restart is unknowable, the
-code treats the window below a restart point as already received (like a group sender's
-trust-first message) -- the property is silent there (`specPlainDemand = none`). -/
+most once; a newer value and an in-window value not accepted yet (since the last restart) are
+accepted; a value that lies more than the window below a value accepted since the last restart IS a
+restart: it is accepted and starts a new epoch, in which nothing has been accepted yet but the
+restart value itself -- so a message the restarted peer sent just before the first one that arrived
+(overtaken on the way) is still accepted once instead of being acknowledged as a duplicate and
+discarded. The state is just the list of values accepted in the current epoch. -/
 
 structure PSpec where
-  /-- restart point of the current epoch (0 before the first restart) -/
-  floor : Nat
   /-- values accepted in the current epoch, newest first -/
   acc : List Nat
 deriving Repr, DecidableEq, Inhabited
 
-def PSpec.init : PSpec := { floor := 0, acc := [] }
+def PSpec.init : PSpec := { acc := [] }
 
 /-- `c` is a restart: more than the window below a value accepted in this epoch -/
 def PSpec.isRestart (p : PSpec) (c : Nat) : Bool := p.acc.any (fun a => decide (c + L < a))
 
-/-- the verdict of the code, exactly (theorem `unsecured_is_spec`) -/
+/-- accepted iff first message of the session, a restart, or not accepted yet in this epoch -/
 def specPlainAccept (p : PSpec) (c : Nat) : Bool :=
-  p.acc.isEmpty || p.isRestart c || (!p.acc.contains c && decide (p.floor ≤ c))
-
-/-- what the property demands: `none` = silent (a first-timer below the restart point) -/
-def specPlainDemand (p : PSpec) (c : Nat) : Option Bool :=
-  if p.acc.isEmpty then some true
-  else if p.isRestart c then some true
-  else if p.acc.contains c then some false
-  else if c < p.floor then none
-  else some true
+  p.acc.isEmpty || p.isRestart c || !p.acc.contains c
 
 /-- epoch bookkeeping, given the verdict that was observed -/
 def specPlainNext (p : PSpec) (c : Nat) (accepted : Bool) : PSpec :=
   if !accepted then p
-  else if p.acc.isEmpty then { floor := 0, acc := [c] }
-  else if p.isRestart c then { floor := c, acc := [c] }
-  else { p with acc := c :: p.acc }
+  else if p.acc.isEmpty then { acc := [c] }
+  else if p.isRestart c then { acc := [c] }
+  else { acc := c :: p.acc }
 
 end Dedup
